@@ -5,7 +5,7 @@
    None = ToCommandLine returns an error. *)
 From Coq Require Import List Ascii String Arith NArith ZArith Bool Lia.
 Import ListNotations.
-Require Import Bytes Dec Mach RuleTables Arch Errno Syscalls MsgType RuleDecode Flags.
+Require Import Bytes Dec Mach RuleTables RuleSwitches Arch Errno Syscalls MsgType RuleDecode Flags.
 Local Open Scope string_scope.
 Local Open Scope list_scope.
 Open Scope N_scope.
@@ -125,8 +125,9 @@ Fixpoint last_index (f : N) (l : list (N * N * N)) (i : nat) (acc : option nat) 
   match l with [] => acc | (f', _, _) :: r => last_index f r (S i) (if f' =? f then Some i else acc) end.
 
 (* what is printed after the operator for a field that carries a number *)
-Definition uid_fields : list N := [1; 2; 3; 4; 9; 109].
-Definition gid_fields : list N := [5; 6; 7; 8; 110].
+(* the uid / gid case lists of ToCommandLine's switch, read from the source by the translator *)
+Definition uid_fields : list N := sw_uid_fields_print.
+Definition gid_fields : list N := sw_gid_fields_print.
 Definition print_value (f v : N) : option str :=
   if f =? 11 then display_arch v
   else if f =? 103 then
